@@ -26,6 +26,10 @@ CONFIGS = {
                                      (None, S_[1:4]), (3, S_[0:2])]),
     "mat23": dict(shape=(2, 3), slices=[(None, S_[0, :]), (None, S_[:, 1]), (None, S_[0:2, 1:3]),
                                         (None, S_[:, ::2]), (3, S_[1, :]), (None, (np.array([1, 0]), np.array([0, 2])))]),
+    # index tuples that mix basic slices, integers and index arrays in either order (numpy returns views of temporaries there)
+    "mat23mix": dict(shape=(2, 3), slices=[(None, (slice(None), np.array([2, 0]))), (None, (slice(0, 1), np.array([1, 2]))),
+                                           (None, (np.array([1, 0]), slice(1, 3))), (None, (1, np.array([0, 2]))),
+                                           (None, S_[0:2, 0:2]), (4, (slice(None), np.array([1])))]),
     "scalar": dict(shape=(), slices=[]),
     # the same machine without slices: replayed with DyadCarrier values (the type of every sparse-matrix sensitivity)
     "vec3dyad": dict(shape=(3,), slices=[]),
@@ -290,7 +294,21 @@ def record_trace(rng, tid):
     users = [np.array(rnd_vals(n), dtype=dt).reshape(shape) for _ in range(3)]
 
     def rnd_index():
-        kind = rng.choice(["basic", "tuple", "fancy", "nested"])
+        kind = rng.choice(["basic", "tuple", "fancy", "nested", "mixed"])
+        if kind == "mixed" and rank >= 2:
+            # basic slices, integers and one index array in any position of the tuple
+            pos = rng.randint(0, rank - 1)
+            ix = []
+            for d in range(rank):
+                if d == pos:
+                    ix.append(np.array(rng.sample(range(shape[d]), rng.randint(1, shape[d]))))
+                else:
+                    a = rng.randint(0, shape[d] - 1)
+                    b = rng.randint(a + 1, shape[d])
+                    ix.append(slice(a, b, rng.choice([None, 1, 2])) if rng.random() < 0.8 else a)
+            return [tuple(ix)]
+        if kind == "mixed":
+            kind = "fancy"
         if kind == "basic" or (rank == 1 and kind == "tuple"):
             a = rng.randint(0, shape[0] - 1)
             b = rng.randint(a + 1, shape[0])
@@ -471,10 +489,10 @@ def run(chk, replay=None):
                          "operation sequence); traces = API histories recorded from the real code and accepted by "
                          "TraceSignals.tla")
     chk.assumptions += ["numpy indexing defines the meaning (positions) of a slice",
-                        "integer-array slices have no repeated indices; nested slices are basic slices",
+                        "integer-array slices have no repeated indices; nested slices are basic slices or a slice-then-index-array tuple",
                         "values are small integers times a fixed real or complex unit (additive homomorphism)"]
     # [S] exhaustive checking of the declarative properties on the operational model
-    ex_depth = {"vec4": 6 if thorough else 4, "mat23": 5 if thorough else 4, "scalar": 8 if thorough else 6, "vec3dyad": 6 if thorough else 5}
+    ex_depth = {"vec4": 6 if thorough else 4, "mat23": 5 if thorough else 4, "mat23mix": 5 if thorough else 4, "scalar": 8 if thorough else 6, "vec3dyad": 6 if thorough else 5}
     for name, d in ex_depth.items():
         model_check(chk, name, d)
     # vacuity guard: negative variants must be refuted
